@@ -19,7 +19,7 @@ def bench_text(nl: dict, keys=None) -> str:
         if typ == 'INPUT':
             continue
         name = 'BUFF' if typ == 'IFF' else typ
-        glines.append((keys[idx] if keys else 0, idx, f'{lab} = {name}({", ".join(ops)})'))
+        glines.append((keys[idx % len(keys)] if keys else 0, idx, f'{lab} = {name}({", ".join(ops)})'))
     glines.sort()
     lines.extend(x[2] for x in glines)
     for lab in nl['outputs']:
@@ -48,7 +48,7 @@ def build(nl: dict, route: dict | None = None):
     if kind == 'rename':
         labs = [g[0] for g in nl['gates']]
         for i, m in enumerate(route.get('moves', [])):
-            lab = labs[m]
+            lab = labs[m % len(labs)]
             tmp = f'__tmp_move_{i}__'
             c.rename_gate(lab, tmp)
             c.rename_gate(tmp, lab)
